@@ -13,6 +13,7 @@ import (
 	"verifharness/doubles"
 	"verifharness/drv"
 	"verifharness/gen"
+	"verifharness/san"
 )
 
 func init() { drv.Register("C04", monC04) }
@@ -260,6 +261,93 @@ func monC04(c *drv.Ctx) {
 		cs.Count(true, "hugebytes", cs.Idx)
 		cs.C.Obs("huge requests on a bytes reader", 1)
 		cs.C.ObsMax("max_request_on_bytes_reader", int64(n))
+	})
+
+	// (3d) a stream-backed reader asked for counts no buffer can hold (beyond every size class of the pool and
+	// beyond what a doubling size computation survives): a non-nil error, nothing consumed, and the stream is
+	// still delivered intact afterwards. (Counts between 2^31 and 2^45 really are buffered - address space is
+	// reserved for them - and are left out: the allocation carve-out.)
+	absurd := []int{1<<45 + 1, 1 << 50, 1 << 61, 1<<62 + 1, math.MaxInt64}
+	c.Stage("stream-reader-absurd-requests", int64(len(absurd)*4*3), true, func(cs *drv.Case) {
+		i := int(cs.Idx)
+		n := absurd[i%len(absurd)]
+		i /= len(absurd)
+		kind := i % 4 // Next, Peek, Skip, ReadBinary (a slice header of that length over untouched pages)
+		i /= 4
+		pre := i % 3
+		const L = 5000
+		src := &doubles.Source{Len: L, ErrAt: L, Err: io.EOF, Sched: doubles.SchedSmall, R: cs.R, Budget: 1000000}
+		rd := bufiox.NewDefaultReader(src)
+		cs.Desc = M{"n": n, "op": []string{"Next", "Peek", "Skip", "ReadBinary"}[kind], "pre": pre}
+		pos := 0
+		if pre >= 1 {
+			if b, err := rd.Next(7); err != nil || len(b) != 7 {
+				cs.Fail("reader-wrong-bytes", M{"op": "Next"}, M{"message": "Next(7) failed", "err": errString(err)})
+				return
+			}
+			pos = 7
+			if pre == 2 {
+				rd.Release(nil)
+			}
+		}
+		before := rd.ReadLen()
+		var err error
+		var got []byte
+		m := 0
+		returned, pnc := cs.C.Bounded(60*time.Second, "stream reader absurd request", func() {
+			switch kind {
+			case 0:
+				got, err = rd.Next(n)
+			case 1:
+				got, err = rd.Peek(n)
+			case 2:
+				err = rd.Skip(n)
+			default:
+				if n > 1<<46 {
+					return // a slice of that length cannot even be described; only the 1<<45+1 case is tried
+				}
+				mem, free := san.Virtual(n)
+				defer free()
+				m, err = rd.ReadBinary(mem)
+			}
+		})
+		if !returned {
+			cs.Fail("operation-never-returned", M{"reader": "stream", "op": cs.Desc["op"]}, M{"n": n, "message": "the call had not returned after 60 s"})
+			return
+		}
+		if pnc != nil {
+			panic(pnc)
+		}
+		if kind == 3 && n > 1<<46 {
+			return
+		}
+		det := M{"n": n, "op": cs.Desc["op"], "position": pos, "err": errString(err), "returned": len(got), "m": m}
+		if err == nil {
+			cs.Fail("reader-short-success", M{"op": det["op"], "reader": "stream"}, det)
+			return
+		}
+		if kind != 3 && rd.ReadLen() != before {
+			det["readlen_before"], det["readlen_after"] = before, rd.ReadLen()
+			cs.Fail("reader-consumed-on-failure", M{"op": det["op"], "reader": "stream"}, det)
+			return
+		}
+		if kind == 3 {
+			pos += m // ReadBinary may deliver what there is together with its error
+			if m > L {
+				cs.Fail("readbinary-over-report", M{"reader": "stream"}, det)
+				return
+			}
+		}
+		want := make([]byte, L-pos)
+		doubles.FillContent(want, pos)
+		rest, err2 := rd.Next(L - pos)
+		if err2 != nil || !bytes.Equal(rest, want) {
+			det["err_after"] = errString(err2)
+			cs.Fail("reader-wrong-bytes", M{"op": "Next after a failed absurd request", "reader": "stream"}, det)
+		}
+		rd.Release(nil)
+		cs.Count(true, "absurd", cs.Idx)
+		cs.C.Obs("absurd requests on a stream reader", 1)
 	})
 
 	// (4) no-progress source: (0, nil) forever from some position on
